@@ -107,6 +107,7 @@ func checkC02(c *Ctx) {
 	}
 	micWrappers(c, "R4.wrappers", false)
 	flowC02(c)
+	c.Run.Advisory("R4.wrapper-flow", "R4.wrappers")
 	statelessRoots(c, "R5.stateless", "PHYPayload.calculateUplinkDataMIC", "PHYPayload.calculateDownlinkDataMIC", "PHYPayload.SetUplinkDataMIC", "PHYPayload.SetDownlinkDataMIC", "PHYPayload.ValidateUplinkDataMIC", "PHYPayload.ValidateDownlinkDataMIC", "PHYPayload.ValidateUplinkDataMICF")
 }
 
